@@ -69,6 +69,9 @@ func cast(from reflect.Value, to reflect.Value) (interface{}, error) {
 			return toFloat32(from.String())
 		case reflect.Float64:
 			return toFloat(from.String())
+		case reflect.Uint, reflect.Uint8, reflect.Uint16, reflect.Uint32, reflect.Uint64:
+			// unsigned attributes (blkio weight, tmpfs mode...) set by a variable; base 0 like a YAML literal (0755 is octal)
+			return strconv.ParseUint(from.String(), 0, to.Type().Bits())
 		}
 	case reflect.Int:
 		if to.Kind() == reflect.String {
